@@ -39,6 +39,8 @@ impl Uint128 {
     pub fn is_zero(&self) -> (r: bool) ensures r == (self.0 == 0) { self.0 == 0 }
     pub fn min(self, b: Uint128) -> (r: Uint128) ensures r.0 == (if self.0 <= b.0 { self.0 } else { b.0 }) { if self.0 <= b.0 { self } else { b } }
     pub fn max(self, b: Uint128) -> (r: Uint128) ensures r.0 == (if self.0 >= b.0 { self.0 } else { b.0 }) { if self.0 >= b.0 { self } else { b } }
+    pub fn saturating_sub(self, o: Uint128) -> (r: Uint128) ensures r.0 == (if self.0 >= o.0 { self.0 - o.0 } else { 0 }) { if self.0 >= o.0 { Uint128(self.0 - o.0) } else { Uint128(0) } }
+    pub fn saturating_add(self, o: Uint128) -> (r: Uint128) ensures r.0 == (if self.0 + o.0 <= u128::MAX { (self.0 + o.0) as u128 } else { u128::MAX }) { if self.0 <= u128::MAX - o.0 { Uint128(self.0 + o.0) } else { Uint128(u128::MAX) } }
     pub fn checked_sub(self, o: Uint128) -> (r: StdResult<Uint128>)
         ensures self.0 >= o.0 ==> r is Ok && r->Ok_0.0 == self.0 - o.0,
                 self.0 < o.0 ==> r is Err
